@@ -31,6 +31,10 @@ def collect():
     consts += _txcodec_consts()
     from harness import gen_rpc
     consts += gen_rpc.collect()
+    # --- C08/C09 (mempool)
+    from harness import mempool_env
+    consts.append(('mempoolChunk', 'Nat', str(mempool_env.observe_chunk_size()),
+                   'MemPool._process_mempool: size of the raw_transactions batches (observed on 1000 new hashes)'))
     return consts
 
 
